@@ -11,6 +11,7 @@ import Proofs.C03Body
 import Proofs.C03Sound
 import Proofs.C03Reject
 import Proofs.C03Cex
+import Proofs.C03Handshake
 namespace C03
 open FrameSpec FrameWrite
 
@@ -408,6 +409,105 @@ theorem C03_map_order_irrelevant (v : Nat) (tracing : Bool) (stream now : Int) (
   simp only [List.append_nil] at r1 r2
   exact ⟨_, _, r1, r2, rfl, rfl, rfl, rfl, hperm, rfl⟩
 
+
+/-! ## multi-step exchanges: handshake, authentication rounds, USE, REGISTER, PREPARE → EXECUTE
+
+Model  : Handshake.step / modelReqs / encodeAll (conn.go: startupCoordinator.options / startup /
+         authenticateHandshake, UseKeyspace, registerEvents, prepareStatement / executeQuery → the
+         frame builders of FrameWrite)
+Spec   : Handshake.specReqs — a pure function from (configuration, authenticator as a function of the
+         challenge history, plan, the peer's answers) to the logical requests due, decoded from the
+         wire by FrameSpec.decodeReq. -/
+
+open Handshake in
+/-- **C03_hs_requests.** For every configuration, every authenticator chain (any function from the
+    challenge history to a reply), every plan and EVERY list of peer answers (any length, any order,
+    protocol-conforming or not): the requests the model of conn.go writes — the Go structs handed to
+    the frame builders — ask for exactly the logical requests of the specification, in the same order,
+    with the same "body compressed" marks. -/
+theorem C03_hs_requests (cfg : Config) (au : Authn) (now : Int) (answers : List PeerAnswer) :
+    (modelReqs cfg au answers).map (fun p => (ask now p.1, p.2)) = specReqs cfg au answers := by
+  have h := (run_sim cfg au now answers (Handshake.init cfg) (init_inv cfg au)).1
+  simp only [modelReqs, specReqs, List.map_cons]
+  exact congrArg (List.cons _) h
+
+open Handshake in
+/-- where the exchange ends (handshake abandoned / a request of the plan failed / plan finished /
+    waiting for an answer) and the calls of Authenticator.Success — exactly once, with the token of
+    AUTH_SUCCESS, iff the last reply came with a challenger — are those of the specification -/
+theorem C03_hs_outcome (cfg : Config) (au : Authn) (answers : List PeerAnswer) :
+    toSpec (final cfg au (Handshake.init cfg) answers) = specFinal cfg au .options answers ∧
+    (final cfg au (Handshake.init cfg) answers).successArgs = specSuccess cfg au .options answers := by
+  have h := run_sim cfg au 0 answers (Handshake.init cfg) (init_inv cfg au)
+  refine ⟨h.2.1, ?_⟩
+  rw [h.2.2]; rfl
+
+open Handshake in
+/-- **C03_hs_frames.** The bytes: for every peer script, if the model's frames `frames` go out on
+    the streams `streams` (in range), and every request the specification lists is expressible in the
+    version, then the k-th frame decodes — by the independent decoder, after undoing the negotiated
+    (identity) compression exactly where the specification says compression is in effect — to
+    version, no tracing, stream k, the k-th request of the specification, nothing left over; for all k,
+    and there are exactly as many frames as requests due. -/
+theorem C03_hs_frames (cfg : Config) (au : Authn) (now : Int) (answers : List PeerAnswer)
+    (streams : List Int) (frames : List Bytes) (hv1 : 1 ≤ cfg.v) (hv5 : cfg.v ≤ 5)
+    (hs : ∀ s ∈ streams, StreamInRange cfg.v s)
+    (hx : ∀ r ∈ specReqs cfg au answers, Expressible cfg.v r.1 = true)
+    (he : encodeAll cfg.v now streams (modelReqs cfg au answers) = some frames) :
+    expectAll cfg.v streams (specReqs cfg au answers) frames := by
+  rw [← C03_hs_requests cfg au now answers]
+  apply encodeAll_expect cfg.v now hv1 hv5 streams _ frames hs _ he
+  intro p hp
+  apply hx (ask now p.1, p.2)
+  rw [← C03_hs_requests cfg au now answers]
+  exact List.mem_map.mpr ⟨p, hp, rfl⟩
+
+open Handshake in
+/-- **C03_hs_auth_token_round.** Request k+2 of an exchange SUPPORTED, AUTHENTICATE cls, then
+    challenges c₁ c₂ … is AUTH_RESPONSE with the token the authenticator chain produces for the
+    history (cls, c₁ … c_k) — for every k, every authenticator, as long as the chain carries on
+    (a challenger came with each earlier reply, no error). The token of round k is never that of
+    another round. -/
+theorem C03_hs_auth_token_round (cfg : Config) (au : Authn) (m : List (Bytes × List Bytes)) (cls : Bytes)
+    (cs : List (Option Bytes)) (more : List PeerAnswer) (k : Nat) (hk : k ≤ cs.length)
+    (hA : cfg.hasAuth = true) (h0 : au.challenge [some cls] ≠ .fail)
+    (hc : ∀ i, i < k → nextOf (au.challenge (some cls :: cs.take i)) = true ∧
+                       au.challenge (some cls :: cs.take (i + 1)) ≠ .fail) :
+    (specReqs cfg au (.supported m :: .authenticate cls :: (cs.map PeerAnswer.authChallenge ++ more)))[k + 2]? =
+      some (Req.authResponse (tokenOf (au.challenge (some cls :: cs.take k))), negotiated cfg m) := by
+  have hstep : specStep cfg au (.startup (negotiated cfg m)) (.authenticate cls) =
+      (.auth (negotiated cfg m) [some cls], some (Req.authResponse (tokenOf (au.challenge [some cls])), negotiated cfg m), none) := by
+    simp only [specStep]; rw [if_pos ⟨hA, h0⟩]
+  have hstep0 : specStep cfg au .options (.supported m) =
+      (.startup (negotiated cfg m), some (specStartup cfg m, false), none) := rfl
+  cases k with
+  | zero => simp [specReqs, specRun, hstep0, hstep]
+  | succ k =>
+    have := specRun_auth_round cfg au (negotiated cfg m) cs [some cls] k more (by omega) (by
+      intro i hi
+      simpa using hc i (by omega))
+    simpa [specReqs, specRun, hstep0, hstep] using this
+
+open Handshake in
+/-- the same on the wire: frame k+2 of the model decodes to the AUTH_RESPONSE carrying
+    `au.challenge (cls, c₁ … c_k)`'s token -/
+theorem C03_hs_auth_frame_round (cfg : Config) (au : Authn) (now : Int) (m : List (Bytes × List Bytes)) (cls : Bytes)
+    (cs : List (Option Bytes)) (more : List PeerAnswer) (k : Nat) (hk : k ≤ cs.length)
+    (streams : List Int) (frames : List Bytes) (hv1 : 1 ≤ cfg.v) (hv5 : cfg.v ≤ 5)
+    (hs : ∀ s ∈ streams, StreamInRange cfg.v s)
+    (hx : ∀ r ∈ specReqs cfg au (.supported m :: .authenticate cls :: (cs.map PeerAnswer.authChallenge ++ more)),
+      Expressible cfg.v r.1 = true)
+    (he : encodeAll cfg.v now streams
+      (modelReqs cfg au (.supported m :: .authenticate cls :: (cs.map PeerAnswer.authChallenge ++ more))) = some frames)
+    (hA : cfg.hasAuth = true) (h0 : au.challenge [some cls] ≠ .fail)
+    (hc : ∀ i, i < k → nextOf (au.challenge (some cls :: cs.take i)) = true ∧
+                       au.challenge (some cls :: cs.take (i + 1)) ≠ .fail) :
+    ∃ s f, streams[k + 2]? = some s ∧ frames[k + 2]? = some f ∧
+      decodeZ (negotiated cfg m) f =
+        some ⟨cfg.v, false, s, Req.authResponse (tokenOf (au.challenge (some cls :: cs.take k))), []⟩ :=
+  expectAll_get cfg.v _ _ _ (C03_hs_frames cfg au now _ streams frames hv1 hv5 hs hx he) (k + 2) _ _
+    (C03_hs_auth_token_round cfg au m cls cs more k hk hA h0 hc)
+
 /-! ## non-vacuity -/
 
 /-- a v4 EXECUTE with named values, an unset value, page size, paging state, serial consistency,
@@ -430,5 +530,36 @@ example : ∃ bs, encodeReq 4 true 32767 0 exRich = .ok bs ∧
 example : Rejectable 3 (ask 0 exRich) = true := by decide
 example : mapEquiv (Req.startup [([1], [2]), ([3], [4])]) (Req.startup [([3], [4]), ([1], [2])]) :=
   List.Perm.swap _ _ _
+
+/-! non-vacuity of the handshake theorems: a v4 connection with a compressor the peer offers, a
+    three-round authenticator whose token is `t` ++ the latest challenge, then USE, REGISTER,
+    PREPARE → EXECUTE with the id of the PREPARED answer -/
+section HsExample
+open Handshake
+
+def hsExAuth : Authn := ⟨fun hist => .reply (some ([0x74] ++ (hist.getLast?.join).getD [])) true, fun _ _ => true⟩
+def hsExCfg : Config := ⟨4, [0x33], [0x64], [0x31], some [0x7a], true, 1, true,
+  [.useKs [0x6b], .register true false true, .exec [0x73] 6 [some [1], none]], id⟩
+def hsExAnswers : List PeerAnswer :=
+  [.supported [(kCompression, [[0x7a]])], .authenticate [0x63], .authChallenge (some [0x41]), .authChallenge none,
+   .authSuccess (some [0x5a]), .setKeyspace, .ready, .prepared [9, 9] 2, .void]
+
+example : (specReqs hsExCfg hsExAuth hsExAnswers).length = 9 := by decide
+example : (specReqs hsExCfg hsExAuth hsExAnswers)[3]? = some (Req.authResponse (some [0x74, 0x41]), true) := by decide
+example : (specReqs hsExCfg hsExAuth hsExAnswers)[4]? = some (Req.authResponse (some [0x74]), true) := by decide
+example : (specReqs hsExCfg hsExAuth hsExAnswers)[8]? =
+    some (Req.execute [9, 9] ⟨6, true, [⟨none, Val.bytes [1]⟩, ⟨none, Val.null⟩], none, none, none, none, none⟩ [], true) := by decide
+example : specFinal hsExCfg hsExAuth .options hsExAnswers = .stop .finished := by decide
+example : specSuccess hsExCfg hsExAuth .options hsExAnswers = [some [0x5a]] := by decide
+example : (specReqs hsExCfg hsExAuth hsExAnswers).all (fun r => Expressible 4 r.1) = true := by decide
+example : ∃ frames, encodeAll 4 0 [0, 0, 0, 0, 0, 0, 0, 0, 0] (modelReqs hsExCfg hsExAuth hsExAnswers) = some frames ∧ frames.length = 9 := by
+  refine ⟨_, rfl, ?_⟩
+  decide
+
+/-- the hypotheses of C03_hs_auth_token_round / C03_hs_auth_frame_round hold for this authenticator, any k -/
+example (cls : Bytes) (cs : List (Option Bytes)) (i : Nat) :
+    nextOf (hsExAuth.challenge (some cls :: cs.take i)) = true ∧
+    hsExAuth.challenge (some cls :: cs.take (i + 1)) ≠ .fail := ⟨rfl, by simp [hsExAuth]⟩
+end HsExample
 
 end C03
